@@ -142,6 +142,13 @@ func genC14Plan(t *rapid.T) c14Case {
 		c.Breaks = []c14Break{{After: rapid.IntRange(1, 40).Draw(t, "slowafter"), Kind: "slow", StallMS: rapid.SampledFrom(stalls).Draw(t, "slowms")}}
 		// more octets than the socket buffers of both ends can absorb, so that the producer really blocks
 		c.PadTo = rapid.SampledFrom([]int{2048, 4096, 8192}).Draw(t, "padto")
+		if c.Breaks[0].StallMS > 6000 {
+			// default socket buffers (several MiB): 2500..3200 messages of 16 KiB, far more than they absorb
+			c.PadTo = 16384
+			for len(c.Msgs) < 2500 {
+				c.Msgs = append(c.Msgs, []byte("slow-sink-filler-0123456789"))
+			}
+		}
 		return c
 	}
 	if c.Protocol == "tcp" && rapid.IntRange(0, 7).Draw(t, "stallplan") == 0 {
@@ -238,7 +245,9 @@ func (s *c14Sink) listen() error {
 	var err error
 	lc := net.ListenConfig{}
 	for _, b := range s.breaks {
-		if b.Kind == "stall" || b.Kind == "slow" {
+		// (a long pause behind a window of a few KiB leaves the connection crawling from one persist probe to the next
+		// for minutes: sinks that pause for more than 6 s keep the default buffers and are sent more octets instead)
+		if b.Kind == "stall" || (b.Kind == "slow" && b.StallMS <= 6000) {
 			// a small receive window, inherited by accepted connections, lets the producer's writes block early
 			lc.Control = func(network, address string, c syscall.RawConn) error {
 				return c.Control(func(fd uintptr) { syscall.SetsockoptInt(int(fd), syscall.SOL_SOCKET, syscall.SO_RCVBUF, 4096) })
@@ -344,6 +353,12 @@ func (s *c14Sink) serve(conn net.Conn) {
 			return
 		}
 	}
+}
+
+func (s *c14Sink) streamLen() int {
+	s.mu.Lock()
+	defer s.mu.Unlock()
+	return len(s.stream)
 }
 
 func (s *c14Sink) count() int {
@@ -539,6 +554,15 @@ func runC14(c *c14Case) (v verdict, sig string, err error) {
 	if len(c.Breaks) == 0 || onlySlow {
 		// the connection never breaks: everything must arrive, exactly once and in order
 		ok := sink.waitLines(len(wireMsgs), 20*time.Second+time.Duration(slowMS)*time.Millisecond)
+		// a deadline is no verdict: while the stream still grows the wait goes on (at most 10 minutes); only a stream
+		// that has stopped short is judged
+		for started := time.Now(); !ok && time.Since(started) < 10*time.Minute; {
+			before := sink.streamLen()
+			ok = sink.waitLines(len(wireMsgs), 30*time.Second)
+			if !ok && sink.streamLen() == before {
+				break
+			}
+		}
 		finish()
 		sink.mu.Lock()
 		stream := append([]byte{}, sink.stream...)
